@@ -10,6 +10,7 @@ import (
 	stdhttp "net/http"
 	"sort"
 	"strings"
+	"verif/ref/deephash"
 
 	"github.com/cloudwego/dynamicgo/conv"
 	"github.com/cloudwego/dynamicgo/conv/j2p"
@@ -499,6 +500,10 @@ func stable(v interface{}) string {
 	}
 	return fmt.Sprintf("%#v", v)
 }
+
+// descMem is the fingerprint of every memory word reachable from the two service descriptors, unexported
+// fields included ("descriptor graphs: built once, must be read-only afterwards").
+func (f *fixture) descMem() (uint64, int) { return deephash.Of(f.svc, f.psvc) }
 
 // dumpDescs renders everything the public accessors expose of the shared descriptors.
 func (f *fixture) dumpDescs() string {
